@@ -318,7 +318,36 @@ impl Space for Adds {
                 a
             });
         }
+        // with_plain_time with the receiver's own time of day: resolved again (the earlier of a repeated time)
+        {
+            let local = zc.zone.local_of(t);
+            let (_, tod) = split_local(local);
+            if !(zc.zone.candidates(local).is_empty() && zc.delta.abs() > 3 * 3600) {
+                let model = me(zc.zone.resolve(local, Disamb::Compatible));
+                let got = call(|| z.with_plain_time_and_provider(plain_time(tod)?, &prov));
+                out.lockstep("with_plain_time(own time of day)", &model, &got, |m, v| v.epoch_nanoseconds().as_i128() == *m, || {
+                    let mut a = attrs();
+                    a.push(("receiver_is_the_later_of_a_repeated_time", (zc.zone.candidates(local).len() > 1 && zc.zone.candidates(local)[0] != t).to_string()));
+                    a
+                });
+            }
+        }
         // Duration::compare relative to a zoned date-time: order of the instants the durations lead to
+        let h = 3_600_000_000_000i128;
+        let extra: Vec<DurCase> = [(2i64, 0i128), (1, 23 * h + 1_800_000_000_000), (1, 23 * h), (1, 24 * h + 1_800_000_000_000), (1, 25 * h), (-2, 0), (-1, -23 * h - 1_800_000_000_000), (-1, -25 * h), (3, 0), (2, 23 * h)].iter().filter_map(|(d, tns)| DurCase::new(0, 0, 0, *d, *tns)).collect();
+        for a_ix in 0..extra.len() {
+            for b_ix in 0..extra.len() {
+                let (x, y) = (&extra[a_ix], &extra[b_ix]);
+                if (x.date.days < 0) != (y.date.days < 0) {
+                    continue;
+                }
+                let (mx, my) = (zc.zone.add_zoned(t, x.date, x.time_ns, Overflow::Constrain), zc.zone.add_zoned(t, y.date, y.time_ns, Overflow::Constrain));
+                if let (Ok(mx), Ok(my)) = (mx, my) {
+                    let got = call(|| x.imp.compare_with_provider(&y.imp, Some(RelativeTo::ZonedDateTime(z.clone())), &prov));
+                    out.lockstep("Duration::compare(relativeTo zoned, both led by days)", &Ok(mx.cmp(&my)), &got, |a, b| a == b, || vec![("zone", zc.desc.clone()), ("receiver", local_text(zc, t)), ("d1", x.text()), ("d2", y.text()), ("day_probe", zc.day_probe().to_string())]);
+                }
+            }
+        }
         for (d1, d2) in [(0usize, 5usize), (6, 7), (0, 4), (1, 11)] {
             let (x, y) = (&self.durs[d1], &self.durs[d2]);
             let (mx, my) = (zc.zone.add_zoned(t, x.date, x.time_ns, Overflow::Constrain), zc.zone.add_zoned(t, y.date, y.time_ns, Overflow::Constrain));
